@@ -78,7 +78,8 @@ def fixed_for(layout, K):
         fx["orders"][("user_id", i)] = layout["order_user"][i]
         fx["orders"][("kind", i)] = layout["kind"][i]
         fx["items"][("id", i)] = i
-        fx["items"][("order_id", i)] = i % K
+        # referential integrity: an item refers to an order that exists (a row without an owner has no privacy unit at all)
+        fx["items"][("order_id", i)] = (i % K) if layout["order_present"][i % K] else 0
     return fx
 
 
@@ -184,6 +185,16 @@ def main():
     configs = [("chain", "default"), ("chain", "mult1")] if tier == "quick" else [(p, q) for p in pus for q in PARAMS]
     jobs, keys = [], []
     progs_ = PROGRAMS[:int(os.environ["C01_PROGS"])] if os.environ.get("C01_PROGS") else (PROGRAMS if tier != "quick" else [PROGRAMS[i] for i in (0, 1, 2, 3, 5, 6, 7, 9, 12, 13, 14, 16)])
+    import random as _random
+    from common import seed as _seed
+    rnd = _random.Random(_seed() * 104729 + 1)
+    extra, seen = [], set(progs_)
+    while len(extra) < (2 if tier == "quick" else 30) and not os.environ.get("C01_PROGS"):
+        q = pucat.random_dp_program(rnd, joins=(tier != "quick"))[0]
+        if q not in seen:
+            seen.add(q)
+            extra.append(q)
+    progs_ = list(progs_) + extra
     for sql in progs_:
         for pun, prm in configs:
             jobs.append(dict(op="rewrite", mode="dp", tables=tabs, privacy_unit=pus[pun], dp=PARAMS[prm], synthetic=False, sql=sql, render=True))
